@@ -59,6 +59,34 @@ theorem load_total (cur : PDict Int Node) (fs : FileState) :
       · exact Or.inl ⟨⟨cur, some (save cur)⟩, by simp [h0]⟩
       · exact Or.inr (by simp [h0, h1])
 
+/-- The loads of a whole process, one after the other - other Persistence objects, other event loops,
+whatever was done to the file in between (`fss`: what each load finds at the path).  Each load
+starts from the registry the previous one left; a load that failed may have stored some records
+before it failed, so after a failure the registry is ANY registry (`part`). -/
+def runLoads (part : PDict Int Node → FileState → PDict Int Node) :
+    PDict Int Node → List FileState → List (Except Persist.Exn Loaded)
+  | _, [] => []
+  | cur, fs :: rest =>
+    loadFile cur fs ::
+      runLoads part (match loadFile cur fs with | .ok l => l.nodes | .error _ => part cur fs) rest
+
+/-- **C14 over the life of a process.**  The outcome of a load is a function of the registry and of
+what is at the path, of nothing else: however many loads went before, whatever they found and
+however they ended, every load of the history succeeds or raises `PersistenceReadError`.  (The
+correspondence run checks the premise on the code: histories of loads and saves by several objects
+on one path, overlapping, under several event loops of one process.) -/
+theorem every_load_total (part : PDict Int Node → FileState → PDict Int Node) (cur : PDict Int Node)
+    (fss : List FileState) :
+    ∀ r ∈ runLoads part cur fss, (∃ l, r = .ok l) ∨ r = .error (.lib .persistenceRead) := by
+  induction fss generalizing cur with
+  | nil => intro r h; simp [runLoads] at h
+  | cons fs rest ih =>
+    intro r h
+    simp only [runLoads, List.mem_cons] at h
+    rcases h with h | h
+    · subst h; exact load_total cur fs
+    · exact ih _ r h
+
 /-- A missing file is not an error: the registry is left as it is and the file is created holding
 `save` of the current registry. -/
 theorem missing_creates (cur : PDict Int Node) :
